@@ -617,7 +617,12 @@ func runLint(which string) {
 		}
 	case "L19":
 		sites, hits = montgomeryLimbReads(fns)
-	case "SCAN", "ABS", "ZEROUSE", "ARRIDX", "WIDTH", "SUBALIAS", "ASMBOUNDS", "DEAD", "RANGEOFF", "SHAREDFIELD", "STALECAP", "CHUNKREM":
+	case "ARGROLE":
+		sites, hits = swappedArguments(p)
+		if os.Getenv("GCV_DEBUG") != "" {
+			debugArgRoles(p)
+		}
+	case "SCAN", "ABS", "ZEROUSE", "ARRIDX", "WIDTH", "SUBALIAS", "ASMBOUNDS", "DEAD", "RANGEOFF", "SHAREDFIELD", "STALECAP", "CHUNKREM", "COINDEX", "CONSTCOND", "NARROWREM", "ELEMALIAS":
 		registerScanProgram(p)
 		re := regexp.MustCompile(os.Getenv("GCV_FUNCS"))
 		for _, fn := range fns {
@@ -628,6 +633,14 @@ func runLint(which string) {
 			var h []Finding
 			if which == "CHUNKREM" {
 				n, h = chunkRemainderDropped(p, fn)
+			} else if which == "CONSTCOND" {
+				n, h = constantConditions(p, fn)
+			} else if which == "NARROWREM" {
+				n, h = narrowBeforeReduce(p, fn)
+			} else if which == "ELEMALIAS" {
+				n, h = elementAliasHazard(p, fn)
+			} else if which == "COINDEX" {
+				n, h = coIndexedLengths(p, fn)
 			} else if which == "RANGEOFF" {
 				n, h = rangeOffsetMisuse(p, fn)
 			} else if which == "SHAREDFIELD" {
@@ -1372,4 +1385,16 @@ func indexLints(c *Ctx, p *Program, pkgPats ...string) {
 	c.Instance(rule3, total)
 	reportFindings(c, p, rule3, nil, hits3, "")
 	c.Ob(rule3, "-", "-", "functions-scanned", "-", total > 0, "no function of the property's packages was scanned")
+	rule4 := c.Prop + ".coindex"
+	c.Rule(rule4, "CO-INDEXED LENGTHS / TILING: where a callee (any callee the call graph resolves, function values included) walks one slice parameter and reads another slice parameter at the same index, the two arguments of every call have the same length; where consecutive goroutines of one block receive sub-slices of the same slice, each starts where the previous one ends. Lengths and bounds are compared as polynomials over the program's values with a = k*(a/k) + a%k; reported only when the difference is *determined* — nothing left in it but constants and remainders — so that no relation between unrelated values could make it vanish", 0)
+	var hits4 []Finding
+	k4 := 0
+	for _, fn := range fns {
+		k, h := coIndexedLengths(p, fn)
+		k4 += k
+		hits4 = append(hits4, h...)
+	}
+	c.Instance(rule4, k4)
+	reportFindings(c, p, rule4, nil, hits4, "")
+	c.Ob(rule4, "-", "-", "call-sites-compared", "-", true, "")
 }
